@@ -214,7 +214,8 @@ NoOvf == \A i \in Ids : Present(i) => ~RefBad(inst[i].kind, inst[i].ref) /\ ~Imp
 Bounded == pos <= MaxDepth
 \* a tainted instance is followed for one window length (every position of the non-finite value in the
 \* window, every cursor position), then only Reset is of interest; this keeps the explored space finite
-TaintBound == \A i \in Ids : Present(i) => inst[i].age <= inst[i].p.n + 2
+\* (free exploration only: a script or a recorded trace is always executed to its end)
+TaintBound == UseScript \/ \A i \in Ids : Present(i) => inst[i].age <= inst[i].p.n + 2
 \* bound on the freely explored part only (continuations always run to their end); models define FreeBound
 FreeDepthOf(b) == rest # <<>> \/ pos <= b
 \* the step counter and the histories are not part of the abstract state
